@@ -819,6 +819,19 @@ impl<'a> Gen<'a> {
         let me = ctx.pkg;
         let other = 1 - ctx.pkg;
         let mut stored_keys: Vec<Vec<u8>> = vec![];
+        if ctx.is_inner {
+            for _ in 0..1 + self.rng.below(3) {
+                let mode = self.rng.below(2) as u8;
+                if self.rng.bool() {
+                    ops.push(Op::FieldOp { handle: ACTOR_STATE_OUTER_OBJECT, index: self.rng.below(3) as u8, mode, payload: self.payload() });
+                } else {
+                    ops.push(Op::KvActorOp { handle: ACTOR_STATE_OUTER_OBJECT, collection: 0, key: self.rng.pick(&KEYS).to_vec(), mode, payload: self.payload() });
+                }
+            }
+            ops.push(Op::ActorRef { dst: next, which: ACTOR_REF_OUTER });
+            ops.push(Op::Drop { t: Tgt::Slot(next) });
+            next += 1;
+        }
         for _ in 0..len {
             if next > 200 {
                 break;
@@ -987,6 +1000,38 @@ impl<'a> Gen<'a> {
                     };
                     let key = if self.rng.chance(1, 3) { b"secret".to_vec() } else { self.rng.pick(&KEYS).to_vec() };
                     ops.push(Op::KvStoreOp { t, key, mode: *self.rng.pick(&[0u8, 0, 1, 1, 3]), payload: self.payload() });
+                }
+                80..=81 if ctx.depth == 0 && self.rng.chance(2, 3) => {
+                    // obtain objects of the other probe package (same blueprint names) from its runner and attack them
+                    let with_inner = self.rng.bool();
+                    let mut sub = vec![Op::NewObject { dst: 10, blueprint: BP.to_string(), nfields: 2, payload: self.payload() }];
+                    let mut ret = vec![10u8];
+                    if with_inner {
+                        sub.push(Op::NewObject { dst: 11, blueprint: BP_INNER.to_string(), nfields: 1, payload: self.payload() });
+                        ret.push(11);
+                    }
+                    sub.push(Op::Return { slots: ret.clone() });
+                    ops.push(Op::CallPeer { peer: self.ids.g[other], script: scrypto_encode(&sub).unwrap(), give: vec![], lend: vec![], dst });
+                    syms.insert(dst, Sym::Obj(other));
+                    if with_inner {
+                        syms.insert(dst + 1, Sym::Inner(other));
+                    }
+                    let victim = dst + self.rng.below(ret.len() as u64) as u8;
+                    ops.push(Op::Drop { t: Tgt::Slot(victim) });
+                    ops.push(Op::GetInfo { t: Tgt::Slot(victim) });
+                    if self.rng.bool() {
+                        let mut key = vec![b'f', dst];
+                        key.extend(self.rng.bytes(6));
+                        ops.push(Op::StoreInKv { slot: victim, key: key.clone() });
+                        ops.push(Op::HoldKv { key });
+                        ops.push(Op::Drop { t: Tgt::Slot(victim) });
+                        ops.push(Op::ReleaseKv);
+                    } else if self.rng.bool() {
+                        // run the other package's code as that object: it may drop itself only by reference (kernel refuses)
+                        let s2 = vec![Op::ActorRef { dst: 5, which: ACTOR_REF_SELF }, Op::Drop { t: Tgt::Slot(5) }, Op::FieldOp { handle: ACTOR_STATE_SELF, index: 0, mode: 1, payload: self.payload() }];
+                        ops.push(Op::CallSlot { slot: victim, script: scrypto_encode(&s2).unwrap(), give: vec![], lend: vec![], dst: dst + 3 });
+                    }
+                    next += 4;
                 }
                 80..=81 => {
                     if self.terminal_budget == 0 {
@@ -1229,7 +1274,7 @@ pub fn run(args: &Args) -> i32 {
     if let Some(path) = &args.replay {
         return replay(path, report);
     }
-    let scripts = scaled(args, args.tier.pick(5_000, 300_000));
+    let scripts = scaled(args, args.tier.pick(10_000, 300_000));
     let per_shard = (scripts / args.threads as u64).max(1);
     let budget = Duration::from_secs(budget_secs(args.tier, 60, 840));
     report.run_shards(50, args.threads, budget, |i, rng, shard| {
